@@ -59,6 +59,7 @@ type Sim struct {
 	broken      string // first problem that made the host stream unparsable
 	discHeld    bool
 	down        bool
+	staleArmed  bool
 
 	p          *pipe
 	lnC, lnD   net.Listener
@@ -200,6 +201,10 @@ func (s *Sim) Progress(m int) int64 {
 	s.outstanding = m
 	return s.sendCtrl(fmt.Sprintf("BUFFER %d", m))
 }
+
+// ArmStaleBuffer makes the TNC send one unsolicited BUFFER <outstanding> report (the progress report for data
+// queued earlier) at the moment it has seen the header of the next host data frame but not yet its body.
+func (s *Sim) ArmStaleBuffer() { s.mu.Lock(); s.staleArmed = true; s.mu.Unlock() }
 
 // Drain reports the buffer empty (BUFFER 0).
 func (s *Sim) Drain() int64 {
